@@ -39,6 +39,13 @@ def wl_roundtrip(ctx, rng, case_no):
                       legacy_windows=False, _environ={})
     w = S.pick_weights(rng)
     s = S.free_string(rng, 40, w, space=0.15, newline=0.05, min_len=1)
+    odd_sep = False
+    if rng.random() < 0.05:
+        # characters that str.splitlines() takes for line ends and a terminal does not (Text keeps them: they are
+        # printed, so they are part of what has to come back)
+        pos = rng.randint(0, len(s))
+        s = s[:pos] + rng.choice(["\x1c", "\x1d", "\x1e", "\x85", "\u2028", "\u2029"]) + s[pos:]
+        odd_sep = True
     n = len(s)
     layers = [[] for _ in range(n)]
     t = Text(s, end="")
@@ -46,6 +53,11 @@ def wl_roundtrip(ctx, rng, case_no):
     colors = G.related_colorspecs(rng) if rng.random() < 0.35 else None
     for _ in range(rng.randint(0, 6)):
         rec = G.rand_record(rng, p_link=0.25, colors=colors, p_fg=0.8 if colors else 0.5, p_bg=0.6 if colors else 0.35)
+        if rec["link"] and rng.random() < 0.12:
+            # a target with a character in it that some terminals take for the END of the hyperlink sequence (BEL) or
+            # that looks like the beginning of one: the encoder writes it as it is, the decoder must read it back
+            pos = rng.randint(0, len(rec["link"]))
+            rec["link"] = rec["link"][:pos] + rng.choice(["\x07", "\x07", "]8;;", "\\", ";"]) + rec["link"][pos:]
         a = rng.randint(0, n)
         b = rng.randint(a, n)
         if b > a:
@@ -75,7 +87,8 @@ def wl_roundtrip(ctx, rng, case_no):
         want = want[:-1]
     wit = {"text": s, "spans": spans, "stream": stream}
     if "".join(c for c, _ in got) != "".join(c for c, _ in want):
-        ctx.violation("roundtrip-characters-differ", dict(wit, got="".join(c for c, _ in got)))
+        ctx.violation("roundtrip-characters-differ" + (":separator-that-only-str.splitlines-knows" if odd_sep else ""),
+                      dict(wit, got="".join(c for c, _ in got)))
     else:
         for i, ((gc, gv), (wc, wv)) in enumerate(zip(got, want)):
             if gc == "\n":
